@@ -1460,6 +1460,9 @@ func (sc *serverConn) closeStream(st *stream, err error) {
 	delete(sc.streams, st.id)
 	if p := st.body; p != nil {
 		p.CloseWithError(err)
+		// Return any buffered unread bytes worth of conn-level flow control:
+		// nobody is going to read them. See golang.org/issue/16481
+		sc.sendWindowUpdate(nil, p.Discard())
 		if st.defaultStreamWindow() {
 			p.Release(&fixBufferPool)
 		}
@@ -1616,12 +1619,21 @@ func (sc *serverConn) processData(f *DataFrame) error {
 
 	// Sender sending more than they'd declared?
 	if st.declBodyBytes != -1 && st.bodyBytes+int64(len(data)) > st.declBodyBytes {
+		// Still enforce the connection-level flow control.
+		if sc.inflow.available() < int32(f.Length) {
+			return StreamError{id, ErrCodeFlowControl, "connection-level flow control window error"}
+		}
+		sc.inflow.take(int32(f.Length))
 		err := fmt.Errorf("sender tried to send more than declared Content-Length of %d bytes", st.declBodyBytes)
 		st.body.CloseWithError(err)
 		// RFC 7540, sec 8.1.2.6: A request or response is also malformed if the
 		// value of a content-length header field does not equal the sum of the
 		// DATA frame payload lengths that form the body.
-		return StreamError{id, ErrCodeProtocol, err.Error()}
+		sc.resetStream(StreamError{id, ErrCodeProtocol, err.Error()})
+		// Return the flow control bytes (after the RST_STREAM), since we're
+		// not going to consume them.
+		sc.sendWindowUpdate(nil, int(f.Length)) // conn-level
+		return nil
 	}
 	if f.Length > 0 {
 		// Check whether the client has flow control quota.
@@ -1634,6 +1646,8 @@ func (sc *serverConn) processData(f *DataFrame) error {
 		if len(data) > 0 {
 			wrote, err := st.body.Write(data)
 			if err != nil {
+				// Return the conn-level flow control bytes of what was not buffered.
+				sc.sendWindowUpdate(nil, int(f.Length)-wrote)
 				errMsg := fmt.Sprintf("stream body write error: %s", err)
 				return StreamError{id, ErrCodeStreamClosed, errMsg}
 			}
